@@ -215,3 +215,82 @@ def c14(tier):
     c.explore(basic_corpus(tier, cfgs_soup="default"), "corpus", ["C14"], sample_cap=Q(tier, 250, 1500))
     return c.finish(
         rule="as C01 (one configuration: parsing does not depend on it); C14_Violations of Props.tla on the public parser's result; parent / Eof clauses on well-formed inputs (seeds)")
+
+
+# =====================================================================================================  C03 / C09 / C10 / C11 / C15
+# (well-formed corpus: the repository's seeds; grammar-generated programs are added by gen_tasks once Gen.tla exists)
+
+def wf_corpus(tier, cfgs, sample_q=23, sample_t=211, **kw):
+    tasks = seed_tasks(cfgs, sample_every=Q(tier, sample_q, sample_t), **kw)
+    try:
+        tasks += gen_tasks(tier, cfgs, sample_every=Q(tier, sample_q * 4, sample_t * 4))
+    except NameError:
+        pass
+    return tasks
+
+
+def c03(tier):
+    build(("release",))
+    c = Check("C03", tier, "exploration")
+    c.explore(wf_corpus(tier, Q(tier, "six", "wide")), "wf", ["C03"], sample_cap=Q(tier, 150, 800))
+    return c.finish(
+        rule="every seed program (both sides of each data test) and every grammar-generated program is formatted, and the result formatted again with the same configuration (6 / 18 configurations, the first one at the seed's own narrow width); "
+             "Session.tla's `idem` relation (precondition b.in = a.out, same configuration) is re-decided by TLC on sampled and flagged histories. non-trivial = histories whose first call returned")
+
+
+def c09(tier):
+    build(("release",))
+    c = Check("C09", tier, "model_checking")
+    tasks = wf_corpus(tier, Q(tier, "six", "wide"))
+    t2, _ = soup_tasks("full", 2, "six", sample_every=Q(tier, 1999, 499))
+    tasks += t2 + splice_tasks(Q(tier, 2000, 30000), "six", sample_every=Q(tier, 199, 997)) + walk_tasks(Q(tier, 5000, 100000), "six", sample_every=997)
+    c.explore(tasks, "le", ["C09"], sample_cap=Q(tier, 150, 800))
+    return c.finish(
+        rule="each input is formatted under lf and crlf (relation lecfg: results equal up to the terminator) and, when it has no CR and no verbatim line-spanning token, as LF and as CRLF text (relation lein: results identical); "
+             "every emitted break (between tokens, inside re-indented strings) must be the configured one")
+
+
+def c10(tier):
+    build(("release",))
+    c = Check("C10", tier, "model_checking")
+    grid = [0, 1, 2, 3, 4, 8, 16, 127, 128, 255]
+    cfgs = []
+    import random
+    rnd = random.Random(SEED)
+    pairs = [(a, b) for a in grid for b in grid]
+    if tier == "thorough":
+        pairs += [(rnd.randrange(256), rnd.randrange(256)) for _ in range(400)]
+    for tw, ci in pairs:
+        cfgs.append({"tab_width": tw, "continuation_indents": ci, "wrap_column": 4294967295})
+    tasks = seed_tasks(cfgs, cfg_mode="rotate", sample_every=Q(tier, 29, 97))
+    if tier == "thorough":
+        tasks += seed_tasks(cfgs[:100], sample_every=9973)
+    try:
+        tasks += gen_tasks(tier, cfgs, cfg_mode="rotate", sample_every=Q(tier, 97, 997))
+    except NameError:
+        pass
+    c.explore(tasks, "tabs", ["C10"], sample_cap=Q(tier, 150, 800))
+    return c.finish(
+        rule="seeds and generated programs, wrap_column = 2^32-1, (tab_width, continuation_indents) over {0,1,2,3,4,8,16,127,128,255}^2 (thorough: + 400 random pairs, and the full product on the first 100 pairs): "
+             "use_tabs result with leading tabs expanded = use_tabs=false result (relation tabs), and every line's indentation = (levels + ci*continuations) units on the final table of both runs")
+
+
+def c11(tier):
+    build(("release",))
+    c = Check("C11", tier, "exploration")
+    c.explore(wf_corpus(tier, Q(tier, "two", "six"), sample_q=41, sample_t=211), "width", ["C11"], sample_cap=Q(tier, 60, 300))
+    return c.finish(
+        rule="seeds and generated programs formatted at widths {10,20,40,80,120,200} plus the critical widths around the line lengths of their own output; every pair W1 < W2 is a `width` relation of Session.tla (three clauses)")
+
+
+def c15(tier):
+    build(("release", "checked"))
+    c = Check("C15", tier, "model_checking")
+    for vh, label in ((VH, "release"), (VH_CHECKED, "checked")):
+        tasks = wf_corpus(tier, Q(tier, "two", "six"), sample_q=37, sample_t=211)
+        t2, _ = soup_tasks("full", 2, "six", sample_every=Q(tier, 1999, 997))
+        tasks += t2 + trunc_tasks("six", Q(tier, 11, 2), sample_every=997) + walk_tasks(Q(tier, 5000, 100000), "six", sample_every=997)
+        c.explore(tasks, f"cursors_{label}", ["C15"], vh=vh, sample_cap=Q(tier, 100, 500))
+    return c.finish(
+        rule="for every input a cursor list (every token start and end, offsets inside blanks and inside multi-line tokens, 0, end, end+1, end+7, 2^32-1; at most 400 per input) is tracked; "
+             "clauses: text unchanged (relation cursor), within output on a character boundary, same offset inside an unchanged token, beyond the end -> end")
